@@ -25,6 +25,55 @@ type c16Case struct {
 	Redir    string         `json:"redir,omitempty"`
 	WrongPW  string         `json:"wrong_pw"`
 	Unknown  string         `json:"unknown_pid"`
+	// Prelude: requests both worlds serve identically before the compared pair
+	// (the property holds after any history, not only on a fresh account).
+	Prelude []string `json:"prelude,omitempty"`
+}
+
+var c16PreludeKinds = []string{"rec-known", "rec-known", "rec-unknown", "login-ok", "login-page", "adv1", "adv45", "adv90", "newsess"}
+
+func c16Prelude(w *harness.World, c c16Case, mk func(w *harness.World, route, pid, secret string) harness.Req) {
+	known := c.Cfg.Accounts[0]
+	// the pair's precondition must survive the prelude: a locked account stays locked
+	budget := time.Duration(1<<62 - 1)
+	if c.Kind == "locked-pw" {
+		budget = time.Duration(c.LockInS-5) * time.Second
+	}
+	adv := func(d time.Duration) {
+		if d <= budget {
+			budget -= d
+			w.Advance(d)
+		}
+	}
+	for _, k := range c.Prelude {
+		switch k {
+		case "rec-known":
+			if c.Cfg.Has("recover") {
+				w.Do(mk(w, "/recover", known.PID, ""))
+			}
+		case "rec-unknown":
+			if c.Cfg.Has("recover") {
+				w.Do(mk(w, "/recover", c.Unknown, ""))
+			}
+		case "login-ok":
+			if c.Kind != "locked-pw" && c.Cfg.Has("auth") {
+				w.Do(mk(w, "/login", known.PID, known.Password))
+				w.Jars[0].ClearSession()
+			}
+		case "login-page":
+			if c.Cfg.Has("auth") {
+				w.Do(harness.Req{Method: "GET", Path: w.Path("/login")})
+			}
+		case "adv1":
+			adv(time.Second)
+		case "adv45":
+			adv(45 * time.Second)
+		case "adv90":
+			adv(90 * time.Second)
+		case "newsess":
+			w.Jars[0].ClearSession()
+		}
+	}
 }
 
 type transcript struct {
@@ -78,16 +127,6 @@ func c16World(c c16Case) (*harness.World, error) {
 }
 
 func c16Run(c c16Case) *Violation {
-	wa, err := c16World(c)
-	if err != nil {
-		return violation("C16", "world", "world construction failed: %v", err)
-	}
-	defer wa.Close()
-	wb, err := c16World(c)
-	if err != nil {
-		return violation("C16", "world", "world construction failed: %v", err)
-	}
-	defer wb.Close()
 	known := c.Cfg.Accounts[0]
 	pidField := "email"
 	if c.Cfg.Username {
@@ -107,27 +146,59 @@ func c16Run(c c16Case) *Violation {
 		}
 		return q
 	}
-	var ra, rb *harness.Resp
 	var what string
-	switch c.Kind {
-	case "locked-pw":
-		ra = wa.Do(mk(wa, "/login", known.PID, known.Password))
-		rb = wb.Do(mk(wb, "/login", known.PID, c.WrongPW))
-		what = "correct vs incorrect password for a locked account"
-	case "recover-exists":
-		ra = wa.Do(mk(wa, "/recover", known.PID, ""))
-		rb = wb.Do(mk(wb, "/recover", c.Unknown, ""))
-		what = "recovery request for an existing vs a non-existing account"
-	case "login-exists":
-		ra = wa.Do(mk(wa, "/login", known.PID, c.WrongPW))
-		rb = wb.Do(mk(wb, "/login", c.Unknown, c.WrongPW))
-		what = "failed login for a known vs an unknown account"
-	case "otp-exists":
-		ra = wa.Do(mk(wa, "/otp/login", known.PID, c.WrongPW))
-		rb = wb.Do(mk(wb, "/otp/login", c.Unknown, c.WrongPW))
-		what = "failed otp login for a known vs an unknown account"
+	// The two worlds run one after the other: each construction re-seeds the
+	// process-wide random source, so both see the same random stream.
+	side := func(first bool) (transcript, error) {
+		w, err := c16World(c)
+		if err != nil {
+			return transcript{}, err
+		}
+		defer w.Close()
+		c16Prelude(w, c, mk)
+		var r *harness.Resp
+		switch c.Kind {
+		case "locked-pw":
+			what = "correct vs incorrect password for a locked account"
+			if first {
+				r = w.Do(mk(w, "/login", known.PID, known.Password))
+			} else {
+				r = w.Do(mk(w, "/login", known.PID, c.WrongPW))
+			}
+		case "recover-exists":
+			what = "recovery request for an existing vs a non-existing account"
+			if first {
+				r = w.Do(mk(w, "/recover", known.PID, ""))
+			} else {
+				r = w.Do(mk(w, "/recover", c.Unknown, ""))
+			}
+		case "login-exists":
+			what = "failed login for a known vs an unknown account"
+			if first {
+				r = w.Do(mk(w, "/login", known.PID, c.WrongPW))
+			} else {
+				r = w.Do(mk(w, "/login", c.Unknown, c.WrongPW))
+			}
+		case "otp-exists":
+			what = "failed otp login for a known vs an unknown account"
+			if first {
+				r = w.Do(mk(w, "/otp/login", known.PID, c.WrongPW))
+			} else {
+				r = w.Do(mk(w, "/otp/login", c.Unknown, c.WrongPW))
+			}
+		default:
+			return transcript{}, fmt.Errorf("unknown pair kind %q", c.Kind)
+		}
+		return c16Transcript(r), nil
 	}
-	ta, tb := c16Transcript(ra), c16Transcript(rb)
+	ta, err := side(true)
+	if err != nil {
+		return violation("C16", "world", "world construction failed: %v", err)
+	}
+	tb, err := side(false)
+	if err != nil {
+		return violation("C16", "world", "world construction failed: %v", err)
+	}
 	if ta == tb {
 		return nil
 	}
@@ -188,6 +259,14 @@ func c16Gen(t *rapid.T) c16Case {
 		}
 	}
 	c.Cfg.Accounts[0].Locked, c.Cfg.Accounts[0].Unconfirmed = false, false
+	if chance(t, "prelude", 55) {
+		c.Prelude = rapid.SliceOfN(rapid.SampledFrom(c16PreludeKinds), 1, 4).Draw(t, "preludeops")
+		// a prelude login refreshes the last-attempt stamp (and, for a 2FA account, leaves
+		// the count alone): keep the proviso of (c) - the compared attempt must not lock
+		if c.Kind != "locked-pw" && c.Cfg.Has("lock") && contains(c.Prelude, "login-ok") && c.Count+1 >= c.Cfg.LockAfter {
+			c.Count = 0
+		}
+	}
 	return c
 }
 
@@ -199,8 +278,12 @@ func TestC16(t *testing.T) {
 		c := c16Gen(rt)
 		v := c16Run(c)
 		a := c.Cfg.Accounts[0]
-		cls := fmt.Sprintf("%s|json=%v|%v|%v|cnt=%d|ago=%d|totp=%v|sms=%v|rm=%v|mw=%s|err500=%v", c.Kind, c.Cfg.JSON, c.Cfg.Modules, c.Cfg.Setups, c.Count, c.LastAgoS, a.TOTP, a.Phone != "", c.RM, c.Cfg.Middleware, c.Cfg.Err500)
-		s.record(true, fnv64(cls), []string{"pair:" + c.Kind}, func() interface{} { return c })
+		cls := fmt.Sprintf("%s|json=%v|%v|%v|cnt=%d|ago=%d|totp=%v|sms=%v|rm=%v|mw=%s|err500=%v", c.Kind, c.Cfg.JSON, c.Cfg.Modules, c.Cfg.Setups, c.Count, c.LastAgoS, a.TOTP, a.Phone != "", c.RM, c.Cfg.Middleware, c.Cfg.Err500) + "|" + strings.Join(c.Prelude, ",")
+		classes := []string{"pair:" + c.Kind}
+		if len(c.Prelude) > 0 {
+			classes = append(classes, "with-prelude")
+		}
+		s.record(true, fnv64(cls), classes, func() interface{} { return c })
 		handle(rt, v, "c16", c)
 	})
 }
